@@ -70,6 +70,7 @@ const (
 	expressionPrecedenceCasting
 	// expressionPrecedenceUnaryPrefix is the expressionPrecedence of
 	// - UnaryExpression
+	// - IntegerExpression and FixedPointExpression, if negative
 	// - CreateExpression
 	// - ReferenceExpression
 	expressionPrecedenceUnaryPrefix
